@@ -7,7 +7,10 @@
 (* by member.  The file is a sequence of items                             *)
 (*     H      a member header                                              *)
 (*     B(n)   a DEFLATE body that decodes to n payload units               *)
-(*     T(ok)  a trailer whose CRC/size match the body (ok) or not          *)
+(*     T(c,z) a trailer: c = its CRC-32 matches the body, z = its ISIZE     *)
+(*            field.  ISIZE is the length of the body modulo 2^32 (RFC     *)
+(*            1952); the model counts in units and wraps at SizeMod, so    *)
+(*            that bodies at and beyond the modulus are within the bounds  *)
 (*     X      a byte that is not the start of a gzip header (garbage)      *)
 (* possibly cut short after any item (cut = number of items present; a     *)
 (* cut inside a member is what C07 calls "cut short").  TLC enumerates     *)
@@ -18,7 +21,9 @@ EXTENDS Integers, Sequences, FiniteSets, TLC
 
 CONSTANTS MaxMembers,    \* members per file
           Payloads,      \* payload sizes (units)
-          MaxTrail       \* garbage items after the last member
+          MaxTrail,      \* garbage items after the last member
+          SizeMod,       \* the modulus of the trailer's length field, in units (2^32 bytes in reality)
+          DevSizeNoWrap  \* deviation: the reader compares ISIZE with a counter that does not wrap
 
 VARIABLES file,      \* the complete file (sequence of items)
           cut,       \* number of items the source really holds
@@ -33,13 +38,16 @@ vars == <<file, cut, multi, pos, phase, given, cur, err, members>>
 
 H      == [k |-> "H"]
 B(n)   == [k |-> "B", n |-> n]
-T(ok)  == [k |-> "T", ok |-> ok]
+T(c, z) == [k |-> "T", crc |-> c, sz |-> z]
 X      == [k |-> "X"]
 
-Member(n, ok) == <<H, B(n), T(ok)>>
+\* a member with a matching trailer, with a wrong CRC, or with a wrong length field
+Member(n, v) == <<H, B(n), CASE v = "ok"  -> T(TRUE, n % SizeMod)
+                             [] v = "crc" -> T(FALSE, n % SizeMod)
+                             [] v = "len" -> T(TRUE, (n + 1) % SizeMod)>>
 RECURSIVE Files(_)
 Files(m) == IF m = 0 THEN {<<>>}
-            ELSE { f \o Member(n, ok) : f \in Files(m - 1), n \in Payloads, ok \in BOOLEAN }
+            ELSE { f \o Member(n, v) : f \in Files(m - 1), n \in Payloads, v \in {"ok", "crc", "len"} }
 Trails == { [i \in 1..t |-> X] : t \in 0..MaxTrail }
 AllFiles == { f \o t : f \in UNION { Files(m) : m \in 1..MaxMembers }, t \in Trails }
 
@@ -53,6 +61,10 @@ Init ==
   /\ pos = 0 /\ phase = "start" /\ given = 0 /\ cur = 0 /\ err = "nil" /\ members = 0
 
 Fail(e) == err' = e /\ phase' = "done"
+
+\* the Reader's trailer check: CRC, and the length it counted, reduced as the field is
+Counted(n) == IF DevSizeNoWrap THEN n ELSE n % SizeMod
+Matches(t, n) == t.crc /\ t.sz = Counted(n)
 
 \* NewReader / Reset: read a member header
 ReadHeader ==
@@ -73,7 +85,7 @@ ReadBody ==
           IF cur < b.n
             THEN given' = given + 1 /\ cur' = cur + 1 /\ UNCHANGED <<pos, phase, err, members>>   \* one unit per Read
           ELSE IF ~Have(pos + 2) THEN Fail("uxeof") /\ pos' = pos + 1 /\ UNCHANGED <<given, cur, members>>
-          ELSE IF ~Item(pos + 2).ok THEN Fail("checksum") /\ pos' = pos + 2 /\ UNCHANGED <<given, cur, members>>
+          ELSE IF ~Matches(Item(pos + 2), cur) THEN Fail("checksum") /\ pos' = pos + 2 /\ UNCHANGED <<given, cur, members>>
           ELSE /\ pos' = pos + 2 /\ members' = members + 1
                /\ IF multi THEN phase' = "between" /\ UNCHANGED err
                   ELSE Fail("eof")                         \* one member per Reset
@@ -102,7 +114,9 @@ RECURSIVE PayloadUpTo(_, _)
 PayloadUpTo(f, i) == IF i = 0 THEN 0 ELSE PayloadUpTo(f, i - 1) + (IF f[i].k = "B" THEN f[i].n ELSE 0)
 MemberEnds(f) == { i \in 1..Len(f) : f[i].k = "T" }
 CutInsideMember == cut < Len(file) /\ cut \notin (MemberEnds(file) \cup {0}) /\ \A i \in 1..cut : file[i].k # "X"
-AllOKUpTo(i) == \A j \in 1..i : file[j].k = "T" => file[j].ok
+\* what RFC 1952 calls a matching trailer (independent of the Reader's arithmetic)
+OkT(j) == file[j].crc /\ file[j].sz = file[j - 1].n % SizeMod
+AllOKUpTo(i) == \A j \in 1..i : file[j].k = "T" => OkT(j)
 
 \* C07: io.EOF only if every trailer read so far matched
 C07_NoSilentCorruption == err = "eof" => AllOKUpTo(pos)
@@ -115,5 +129,8 @@ C07_Prefix == given <= PayloadUpTo(file, Len(file))
 C08_Concat == (multi /\ err = "eof") => given = PayloadUpTo(file, cut) /\ pos = cut
 \* C08 / C05: member by member, the source stands exactly after the member's trailer, trailing data unread
 C08_MemberEnd == (~multi /\ err = "eof" /\ members > 0) => (pos \in MemberEnds(file) /\ given = PayloadUpTo(file, pos))
+\* C06: a complete file whose trailers all match is read to io.EOF, whatever the members' lengths
+C06_ValidAccepted == (phase = "done" /\ multi /\ cut = Len(file) /\ AllOKUpTo(Len(file)) /\ \A i \in 1..Len(file) : file[i].k # "X")
+                        => err = "eof" /\ given = PayloadUpTo(file, Len(file))
 TypeOK == pos <= cut /\ cut <= Len(file) /\ members <= MaxMembers
 =============================================================================
